@@ -79,7 +79,7 @@ def search(ctx, prop=None):
     for f in ctx.failures:
         inp = f.get("input") or {}
         if "device" in inp and "y" in inp:
-            todo.append((advcorr.rebuild(inp), {k: inp[k] for k in ("device", "targets", "gases", "options")}, [np.asarray(inp["y"], float)]))
+            todo.append((advcorr.rebuild(inp), {k: inp[k] for k in ("device", "targets", "gases", "options", "history") if k in inp}, [np.asarray(inp["y"], float)]))
     class C: pass
     c = C(); c.rng = rng
     nm = 10 if (ctx.thorough or ctx.failures) else 3
@@ -91,6 +91,17 @@ def search(ctx, prop=None):
         todo.append((m, desc, [gens.make_state(rng, m) for _ in range(2)]))
         m, desc = advcorr.build_model(rng, n_grid=60, zmax=30, RADIAL_DYNAMICS=True, ESCAPE_AXIAL=True, ESCAPE_RADIAL=True)
         todo.append((m, desc, [advcorr.compensated_state(rng, m) for _ in range(2)]))
+    # model histories: the same species in two orders, built one after the other in this process, charge exchange among the targets on
+    # (whatever a model keeps from an earlier one must not depend on the order of the targets: "every mix of targets")
+    for pair in ((6, 2), (10, 18)):
+        dkw = gens.device_kwargs(rng, n_grid=60)
+        for order in (pair, pair[::-1]):
+            desc_h = {"device": dkw, "targets": [("ions", z_, 1e6, 20.0 * max(1, z_ // 4), 1, True) for z_ in order], "gases": [],
+                      "options": dict(CX=True, RADIAL_DYNAMICS=False)}
+            m_h = advcorr.rebuild(desc_h)
+            if order != pair:
+                desc_h = dict(desc_h, history=[dict(desc_h, targets=[("ions", z_, 1e6, 20.0 * max(1, z_ // 4), 1, True) for z_ in pair])])
+            todo.append((m_h, desc_h, [gens.make_state(rng, m_h)]))
     # sparse states: every density exactly at / just around the minimal density, so that the balance is not drowned by the rates of a
     # populated neighbour (a state sitting exactly on MINIMAL_N_1D is live: what it loses, its neighbour gains)
     from ebisim.physconst import MINIMAL_N_1D
@@ -119,6 +130,8 @@ def replay(ctx, data, prop=None):
     v = data.get("violation", {})
     inp = v.get("input", {})
     if "device" not in inp: return None
+    for h in inp.get("history") or []:
+        advcorr.rebuild(h)          # models built earlier in the process
     m = advcorr.rebuild(inp)
     y = np.asarray(inp["y"], float)
     desc = {k: inp[k] for k in ("device", "targets", "gases", "options")}
